@@ -33,7 +33,7 @@ Plans == {NoFault}
          \cup (IF FaultMode >= 2 THEN {Persist(K, Node) : K \in PersistKinds} ELSE {})
 
 Idle(par, ch) == [par |-> par, ch |-> ch, stk |-> <<>>, exc |-> Nil, src |-> 0, log |-> <<>>, hc |-> 0, fp |-> NoFault,
-                  marks |-> {}, par0 |-> par, strict |-> Strict, asrt |-> Asrt]
+                  marks |-> {}, par0 |-> par, strict |-> Strict, asrt |-> Asrt, pcs |-> {}]
 Init == c = Idle([n \in Node |-> Nil], [n \in Node |-> <<>>])
 BeginCall == c.stk = <<>> /\ \E fr \in Calls(c.par, c.ch), fp \in Plans: c' = Begin(c.par, c.ch, fr, fp, Strict, Asrt)
 DoStep == c.stk # <<>> /\ c' = Step(c)
